@@ -138,6 +138,25 @@ theorem entry_discard_returns_all {α : Type} (ps a0 : Nat) (ops : List (Op α))
   obtain ⟨iov, h1, h2, h3, _⟩ := entry_pages_once ps a0 ops hfit
   exact ⟨iov.map Prod.fst, by simp [discardPages, h1], h2, h3⟩
 
+/-- Link to part B: an entry that received at least one byte has a non-zero size field and a
+non-empty scatter list (so it is a well-formed `reserve` event of the appender model, `Ev.WF`, and
+cannot be mistaken for the stop marker). -/
+theorem entry_nonempty_scatter {α : Type} (ps a0 : Nat) (ops : List (Op α)) (hfit : Fits ps (bytesOf ops).length)
+    (hne : bytesOf ops ≠ []) :
+    (Stream.finish ps a0 ops).buf.size ≠ 0 ∧
+    ∃ iov, appendToIovec (Stream.finish ps a0 ops).buf.entry ps = some iov ∧ iov ≠ [] := by
+  rcases finish_spec ps a0 ops hfit with ⟨h1, _⟩ | ⟨F, c, T, hs, hps, hsz⟩
+  · exact absurd h1 hne
+  · obtain ⟨iov, h1, _, hnz, _, _⟩ := hs.read_spec hsz (by rw [hps]; exact hfit)
+    rw [hps] at h1
+    refine ⟨?_, iov, h1, ?_⟩
+    · rw [hsz]
+      intro h0
+      exact hne (List.length_eq_zero_iff.1 h0)
+    · intro h0
+      rw [h0] at hnz
+      simp at hnz
+
 /-- The hypothesis is needed: at the page sizes it excludes the writer stores past the end of the
 table page as soon as the entry needs a page table (16: the table holds one pointer but the
 inline→table transition stores two; 8: not even one; 20: the pointer array never ends at the page
